@@ -35,4 +35,5 @@ def oracle(H):
     return oracles.c10(H)
 
 
+SWEEP = (6, 80)
 install(globals(), ID, 3500, 40000)
